@@ -352,4 +352,64 @@ theorem setConfiguration_frame {sp : Space} (hwf : SpaceWF sp) (st : St) {cfg : 
   subst this
   exact ⟨st'', g1, h2, h3, h4⟩
 
+/-! ### construction interleaved with selection -/
+
+/-- every catalog made so far and handed a declared controller lists the names of that controller -/
+def CatsOK (decl : List Controller) (cats : List (Name × Name × List Name)) : Prop :=
+  ∀ x ∈ cats, ∀ ctrl, findCtrl decl x.2.1 = some ctrl → x.2.2 = ctrl.specs
+
+theorem stepW_inv {decl : List Controller} {w w' : World} {o : WOp} (h : stepW decl w o = .ok w')
+    (hc : CatsOK decl w.cats) :
+    CatsOK decl w'.cats ∧ (∀ (f : Nat) (sp : Space), w.fs[f]? = some sp → w'.fs[f]? = some sp) := by
+  cases o with
+  | op m =>
+    simp only [stepW] at h
+    split at h
+    · cases h
+    · cases h; exact ⟨hc, fun _ _ h => h⟩
+  | newCatalog n c names =>
+    simp only [stepW] at h
+    split at h
+    · cases h
+    · rename_i u hm
+      cases h
+      refine ⟨?_, fun _ _ h => h⟩
+      intro x hx ctrl hf
+      rcases List.mem_append.mp hx with hx | hx
+      · exact hc x hx ctrl hf
+      · rw [List.mem_singleton.mp hx] at hf ⊢
+        exact mkCatalog_declared hm hf
+  | newFormula e =>
+    simp only [stepW] at h
+    split at h
+    · cases h
+    · cases h
+      refine ⟨hc, fun f sp hf => ?_⟩
+      have hlt : f < w.fs.length := by
+        rcases Nat.lt_or_ge f w.fs.length with h | h
+        · exact h
+        · rw [List.getElem?_eq_none h] at hf; cases hf
+      rw [List.getElem?_append_left hlt]
+      exact hf
+
+theorem runW_inv {decl : List Controller} : ∀ (ops : List WOp) (w w' : World),
+    runW decl w ops = .ok w' → CatsOK decl w.cats → CatsOK decl w'.cats
+  | [], w, w', h, hc => by simp only [runW, Except.ok.injEq] at h; subst h; exact hc
+  | o :: t, w, w', h, hc => by
+    simp only [runW] at h
+    split at h
+    · cases h
+    · rename_i w1 h1
+      exact runW_inv t w1 w' h (stepW_inv h1 hc).1
+
+theorem runW_append (decl : List Controller) : ∀ (l₁ l₂ : List WOp) (w : World),
+    runW decl w (l₁ ++ l₂) =
+      (match runW decl w l₁ with | .error e => .error e | .ok w' => runW decl w' l₂)
+  | [], _, _ => rfl
+  | o :: t, l₂, w => by
+    simp only [List.cons_append, runW]
+    cases stepW decl w o with
+    | error e => rfl
+    | ok w' => exact runW_append decl t l₂ w'
+
 end Cat
